@@ -25,6 +25,9 @@ RULE = ('five generators for HTML and String templates: (1) soups of raw '
         'Non-trivial: the source contains a complete tag opener and is '
         'rejected, or is a pumped input with n >= 24.  Distinct = hash of '
         'the source.')
+RULE += (
+         'Also: every invalid family inside comment / with / unless / '
+         'let / in bodies; empty names with expr=. ')
 ASSUMPTIONS = [
     'sources are <= 4 KB with nesting <= 60 (beyond that the recursive '
     'parser meets Python\'s recursion limit, a resource bound)',
